@@ -78,12 +78,24 @@ func EncodeNLAs(as []*NLA) []byte {
 	return b
 }
 
-func A8(t uint16, v uint8) *NLA   { return &NLA{Type: t, Data: []byte{v}} }
-func A16(t uint16, v uint16) *NLA { b := make([]byte, 2); ne.PutUint16(b, v); return &NLA{Type: t, Data: b} }
-func A32(t uint16, v uint32) *NLA { b := make([]byte, 4); ne.PutUint32(b, v); return &NLA{Type: t, Data: b} }
-func A64(t uint16, v uint64) *NLA { b := make([]byte, 8); ne.PutUint64(b, v); return &NLA{Type: t, Data: b} }
-func AB(t uint16, v []byte) *NLA  { return &NLA{Type: t, Data: append([]byte{}, v...)} }
-func AS(t uint16, s string) *NLA  { return &NLA{Type: t, Data: append([]byte(s), 0)} }
+func A8(t uint16, v uint8) *NLA { return &NLA{Type: t, Data: []byte{v}} }
+func A16(t uint16, v uint16) *NLA {
+	b := make([]byte, 2)
+	ne.PutUint16(b, v)
+	return &NLA{Type: t, Data: b}
+}
+func A32(t uint16, v uint32) *NLA {
+	b := make([]byte, 4)
+	ne.PutUint32(b, v)
+	return &NLA{Type: t, Data: b}
+}
+func A64(t uint16, v uint64) *NLA {
+	b := make([]byte, 8)
+	ne.PutUint64(b, v)
+	return &NLA{Type: t, Data: b}
+}
+func AB(t uint16, v []byte) *NLA { return &NLA{Type: t, Data: append([]byte{}, v...)} }
+func AS(t uint16, s string) *NLA { return &NLA{Type: t, Data: append([]byte(s), 0)} }
 func AN(t uint16, kids ...*NLA) *NLA {
 	if kids == nil {
 		kids = []*NLA{}
